@@ -6,19 +6,27 @@ Container: ``cfb.make_cfb``; metadata: ``cfb.summary_information``.  Nothing her
 What the three real extractors present, and therefore how the ground truth is recorded
 --------------------------------------------------------------------------------------
 ppt   one unit per slide, text = title, body texts, other texts (the documented order; the writer emits the
-      text atoms of a slide in exactly that order).  Speaker notes (class n) are *out*.  Placeholder text lives
-      in the Document's SlideListWithText (instance 0) as PowerPoint writes it; the Slide containers hold the
-      shapes with OutlineTextRefAtoms; notes text lives in the Notes containers' drawings.
+      text atoms of a slide in exactly that order, one paragraph per text atom in clean cases).  Speaker notes
+      (class n) are *out*.  Placeholder text lives in the Document's SlideListWithText (instance 0) as PowerPoint
+      writes it; the Slide containers hold the shapes with OutlineTextRefAtoms; notes text lives in the Notes
+      containers' drawings; MainMaster with the usual "Click to edit ..." texts; PersistDirectory / UserEditAtom /
+      "Current User" are consistent.  Pictures (BStore in the PPDrawingGroup, blips in the "Pictures" stream,
+      picture shapes with a pib) only occur in the two picture features: ``PptUnit.get_images()`` is always empty.
 xls   one unit per sheet; ``iterate_tables()`` yields one table per sheet = header row (first sheet row, every
       cell *as text*) followed by the data rows with native values (int when integral, float, bool, ISO date
       string ``YYYY-MM-DD`` for whole-day dates, None for empty).  The extractor builds the rows as dicts keyed
       by the first row, so the expected grid is simply the sheet's cell rectangle, row 0 included, and clean
       sheets have >= 2 rows and distinct non-empty text headers.  Sheet names are unclaimed (README: "no sheet
-      names").
+      names").  Cells: LABELSST / LABEL / NUMBER / RK / MULRK / BOOLERR / BLANK / FORMULA (cached number) / dates
+      through an XF with built-in format 14.  Clean workbooks carry 0..2 small pictures (inline blips in the
+      globals' MSODRAWINGGROUP, MSODRAWING + OBJ on a sheet); they are workbook-level in the API (unit None).
 doc   flowing text: one unit, or one per detected heading section.  The extractor knows no styles: headings,
-      list items and table cells are ordinary paragraph text (tables/images unclaimed).  Footnote text is a
-      separate field (ignored), header/footer and annotation text are *out*.  ``get_full_text()`` prepends the
-      metadata title: the title token is recorded with ``exp.ignore``.
+      list items and table cells (cell marks \x07) are ordinary paragraph text (tables unclaimed).  Footnote text
+      is a separate field (ignored), header/footer and annotation text are *out*, text-box text is never read
+      (ignored).  ``get_full_text()`` prepends the metadata title: the title token is recorded with
+      ``exp.ignore``.  Spec-sized FIB (0x384 bytes, nFib 0xC1), text at fcMin 0x400/0x600/0x800 as one 16-bit or one
+      8-bit (compressed) piece, Clx with the piece table in 1Table.  Clean documents carry 0..2 inline PNG
+      pictures (PICF + shape + BSE + blip) behind the text in the WordDocument stream (LibreOffice's layout).
 """
 from __future__ import annotations
 
@@ -60,6 +68,8 @@ DOC_FEATURES = {
     "non-latin-leading-text": "the document starts with one token followed by Cyrillic words (twin: Latin words)",
     "short-document": "the whole document is one short paragraph (< 21 characters) (twin: a 70-character paragraph)",
     "mixed-encoding-pieces": "piece table with an 8-bit piece followed by a 16-bit piece (twin: one 16-bit piece)",
+    "picture-in-data-stream": "inline PNG picture stored in the Data stream, where Word puts it (twin: stored in the WordDocument stream, where LibreOffice puts it)",
+    "jpeg-picture": "inline JPEG picture (twin: PNG picture)",
     "cp1252-summary": "SummaryInformation strings in code page 1252 with non-ASCII characters (twin: code page 65001)",
 }
 
@@ -735,6 +745,31 @@ def build_doc(seed: int, feature: str | None = None, twin: bool = False):
     if feature != "short-document" and rng.random() < 0.25:
         txbx = [words("x", 1, 2, rec=exp.ignore) + "\r"]
 
+    # pictures: a picture character (\x01) in its own paragraph; the picture data (PICF + inline shape + BSE + blip) is kept where
+    # LibreOffice's writer puts it (in the WordDocument stream, behind the text) or where Word puts it (the Data stream)
+    exp.images_claimed = True
+    prng = random.Random(f"doc:{seed}:pictures")
+    if feature == "short-document":
+        plan = []
+    elif feature == "picture-in-data-stream":
+        plan = ["png"]
+    elif feature == "jpeg-picture":
+        plan = ["jpeg" if not twin else "png"]
+    else:
+        plan = ["png"] * prng.choice([0, 0, 1, 1, 2])
+    pic_blobs: list[bytes] = []
+    for i, codec in enumerate(plan):
+        b = _blip(codec, prng.randint(2, 20) + 20 * i, prng.randint(2, 40), prng.randrange(1 << 16))      # distinct widths
+        shape = _cont(0xF004, [_rec(2, 75, 0xF00A, struct.pack("<II", 1025 + i, 0x0A00)), _rec(3, 1, 0xF00B, struct.pack("<HI", 0x4104, 1))])
+        art = shape + _fbse(b, 0, inline=True)
+        picf = struct.pack("<iHhhhh", 68 + len(art), 0x44, 0x64, b["w"] * 15, b["h"] * 15, 0) + b"\0" * 14
+        picf += struct.pack("<hhHH", b["w"] * 15, b["h"] * 15, 1000, 1000) + b"\0" * 8 + b"\0\0" + b"\0" * 16 + b"\0" * 4 + struct.pack("<h", 0)
+        assert len(picf) == 68
+        pic_blobs.append(picf + art)
+        main.insert(prng.randrange(1, len(main)), "\x01\r")
+        exp.images.append({"sha": b["sha"], "ctype": b["ctype"], "w": b["w"], "h": b["h"], "unit": None})
+    pics_in_data = risky == "picture-in-data-stream"
+
     t_main, t_ftn, t_hdd, t_atn, t_txbx = ("".join(x) for x in (main, ftn, hdd, atn, txbx))
     subdocs = t_ftn + t_hdd + t_atn + t_txbx
     if subdocs:
@@ -766,6 +801,12 @@ def build_doc(seed: int, feature: str | None = None, twin: bool = False):
         pieces = [(0, fc_min, False)]
     fc_mac = fc_min + len(text_bytes)
     word = bytearray(fc_min) + text_bytes
+    data_stream = b""
+    for blob in pic_blobs:
+        if pics_in_data:
+            data_stream += blob + b"\0" * (-len(blob) % 4)
+        else:
+            word += b"\0" * (-len(word) % 4) + blob
     word += b"\0" * (-len(word) % 512)
     word += b"\0" * 512                          # room where Word keeps its CHPX/PAPX FKP pages
 
@@ -807,6 +848,8 @@ def build_doc(seed: int, feature: str | None = None, twin: bool = False):
                        + struct.pack("<I", 24) + b"Microsoft Word-Dokument\0" + struct.pack("<I", 10) + b"MSWordDoc\0" + struct.pack("<I", 16) + b"Word.Document.8\0"
                        + struct.pack("<I", 0x71B239F4) + b"\0" * 12,
     }
+    if data_stream:
+        streams["Data"] = data_stream
     return cfb.make_cfb(streams, root_clsid=bytes.fromhex("0609020000000000c000000000000046")), exp
 
 
@@ -975,6 +1018,21 @@ def self_test(n: int = 40) -> dict:
                     assert sorted(T.find(d["hdd"]) + T.find(d["atn"])) == sorted(exp.outs), (seed, feature)
                     assert d["text"].endswith(("\r", "\x07")) and (d["rest"] in ("", "\r"))
                     fc_min, fc_mac = struct.unpack_from("<II", got["WordDocument"], 0x18)
+                    assert d["text"].count("\x01") == len(exp.images)
+                    where, p = (got["Data"], 0) if "Data" in got else (got["WordDocument"], fc_mac)
+                    shas = []
+                    while len(shas) < len(exp.images):
+                        p += -p % 4
+                        lcb, cb_header = struct.unpack_from("<iH", where, p)
+                        assert cb_header == 0x44
+                        _, rt, ln = struct.unpack_from("<HHI", where, p + 68)
+                        assert rt == 0xF004
+                        bse = p + 68 + 8 + ln
+                        _, rt, ln2 = struct.unpack_from("<HHI", where, bse)
+                        assert rt == 0xF007 and bse + 8 + ln2 == p + lcb
+                        shas += _blip_shas(where, bse + 8 + 36, bse + 8 + ln2)
+                        p += lcb
+                    assert shas == [i["sha"] for i in exp.images], (seed, feature, twin)
                     assert fc_min in (0x400, 0x600, 0x800) and fc_mac <= len(got["WordDocument"])
                 stats[fmt] += 1
     return stats
